@@ -291,6 +291,28 @@ func c16TieCases() []*pairCase {
 		map[string]string{
 			"router":     "access-list in_acl extended permit ip any4 any4\naccess-group in_acl in interface inside\n",
 			"router.raw": rawMany})
+	// Unused raw objects of different kinds that share their names: every
+	// sort key short of the whole message ties.
+	rawSame := ""
+	for _, n := range []string{"vpn-users", "dmz", "x"} {
+		rawSame += "object-group network " + n + "\n network-object host 10.1.1.1\n network-object host 10.1.1.2\n" +
+			"access-list " + n + " extended permit ip object-group " + n + " any4\n" +
+			"crypto ipsec ikev1 transform-set " + n + " esp-aes-256 esp-sha-hmac\n" +
+			"ip local pool " + n + " 10.3.3.1-10.3.3.9 mask 255.255.255.0\n" +
+			"group-policy " + n + " internal\ngroup-policy " + n + " attributes\n vpn-idle-timeout 60\n" +
+			"tunnel-group " + n + " type remote-access\ntunnel-group " + n + " general-attributes\n default-group-policy " + n + "\n"
+	}
+	add("ASA", "asa-raw-unused-objects-share-names",
+		"interface Ethernet0/1\n nameif inside\n",
+		map[string]string{
+			"router":     "access-list in_acl extended permit ip any4 any4\naccess-group in_acl in interface inside\n",
+			"router.raw": rawSame})
+	add("IOS", "ios-raw-unused-objects-share-names",
+		"interface Ethernet1\n ip address 10.0.1.1 255.255.255.0\n",
+		map[string]string{
+			"router": "ip access-list extended e1_in\n permit ip any any\ninterface Ethernet1\n ip address 10.0.1.1 255.255.255.0\n ip access-group e1_in in\n",
+			"router.raw": "ip access-list extended VPN\n permit ip host 10.5.5.1 any\ncrypto map VPN 1 ipsec-isakmp\n set peer 10.9.9.9\n" +
+				"ip access-list extended b\n permit ip host 10.5.5.2 any\ncrypto map b 1 ipsec-isakmp\n set peer 10.9.9.8\n"})
 	add("ASA", "asa-two-bad-references",
 		"interface Ethernet0/1\n nameif inside\n",
 		map[string]string{
